@@ -374,7 +374,7 @@ class Classification:
                 algebras[algebra] += nc if nc == 1 else 2**(nc-1)
             else:
                 algebras[algebra] = nc if nc == 1 else 2**(nc-1)
-        return "+".join([key if v == 1 else str(v) + "*" + key for key, v in algebras.items()])
+        return "+".join([key if v == 1 else str(v) + "*" + key for key, v in sorted(algebras.items())])
 
     def contains_algebra(self, algebra:str) -> bool:
         """
